@@ -5,7 +5,16 @@ import os
 import sys
 
 sys.path.insert(0, os.path.dirname(os.path.abspath(__file__)))
-from manifest_data import CHECKS, NOT_YET
+import glob
+import importlib
+
+CHECKS = {}
+NOT_YET = {}
+for path in sorted(glob.glob(os.path.join(os.path.dirname(os.path.abspath(__file__)), "c[0-9][0-9].py"))):
+    name = os.path.basename(path)[:-3]
+    mod = importlib.import_module(name)
+    if hasattr(mod, "MANIFEST"):
+        CHECKS[name.upper()] = mod.MANIFEST
 
 VERIF = os.path.dirname(os.path.dirname(os.path.abspath(__file__)))
 ids = [json.loads(l)["id"] for l in open(os.path.join(VERIF, "properties.jsonl"))]
